@@ -165,7 +165,64 @@ def run_one(chk, sseed, cls):
         w.destroy()
 
 
+def never_succeeded_one(chk, sseed):
+    """two repositories, one of which fails persistently from its very first run on (it has never been published and never
+    got a clean script), over two runs, with automatic cleaning or clean scripts, sequentially or concurrently: the run exits
+    non-zero, the healthy repository is published every time, the failing one never is"""
+    rng = random.Random(sseed)
+    auto = rng.random() < 0.3
+    w = common.World(rng, 2, settings={"_autoclean": "1" if auto else "0", "nthreads": rng.choice(["1", "1", "4"])})
+    try:
+        bad = 0 if rng.random() < 0.6 else 1
+        late = rng.random() < 0.75   # the failure shows at the end of the failing repository's run (a pool file), not at its start
+        urls = [r["url"] for r in w.repos]
+        versions = [w.repos, [common.evolve(rng, r) for r in w.repos]]
+        replay = {"scenario_seed": sseed, "never_succeeded": True, "lines": w.lines, "settings": w.settings, "failing": urls[bad]}
+        for step, vs in enumerate(versions):
+            vs = list(vs)
+            vs[bad] = versions[0][bad]
+            stores = w.stores(vs)
+            if any(common.has_s3(r, w.cfgs[r["url"]], stores[r["url"]]) for r in vs):
+                chk.count("skipped(S3)")
+                chk.evaluated(None)
+                return
+            for t in range(30):
+                plan, info = scenario.gen_plan(random.Random(f"{sseed}-p{t}"), "persistent-required", vs[bad], w.cfgs[urls[bad]], stores[urls[bad]])
+                if not late or info.get("what") == "pool":
+                    break
+            if not plan:
+                chk.evaluated(None)
+                return
+            res = run_e2e.execute(w.sb, vs, stores, {urls[bad]: plan}, vloop.RandomChooser(rng.randrange(1 << 30)))
+            r = dict(replay, step=step, plan=plan)
+            if res.exit in (0, "exception") or res.exception is not None:
+                chk.violation("exit-iff:should-fail:never-succeeded", r, f"run {step}: exit {res.exit} ({res.exception!r}) although {urls[bad]} cannot be obtained ({info})")
+            good = urls[1 - bad]
+            for cn in w.cfgs[good]["codenames"]:
+                for fl in ("InRelease", "Release"):
+                    key = f"dists/{cn}/{fl}"
+                    if key in stores[good]:
+                        p = os.path.join(runner.mirror_dir(w.sb, good), key)
+                        if not os.path.exists(p) or open(p, "rb").read() != stores[good][key][0]:
+                            chk.violation("healthy-repo-not-published", r, f"run {step}: {good} is healthy but {key} is not the current upstream's "
+                                          f"although only {urls[bad]} failed (exit {res.exit}, {res.exception!r})")
+                        break
+            probs = w.fsck(good) if res.repo_results.get(good) else []
+            if probs:
+                chk.violation("healthy-repo-fsck", r, f"{good}: {probs[0]}")
+            if os.path.isdir(os.path.join(runner.mirror_dir(w.sb, urls[bad]), "dists")):
+                chk.violation("failed-repo-dists-changed", r, f"run {step}: {urls[bad]} failed but has a published dists tree")
+            chk.traces += 1
+        chk.evaluated(("never-succeeded", auto, w.settings["nthreads"], bad), sample={"never_succeeded": True, "autoclean": auto, "failing": urls[bad]})
+        chk.count("worlds_with_a_repository_that_never_succeeded")
+    finally:
+        run_e2e.flush_l2(chk, {"scenario_seed": sseed, "never_succeeded": True})
+        w.destroy()
+
+
 def run(chk, tier, rng):
+    for i in range(8 if tier == "quick" else 150):
+        never_succeeded_one(chk, f"C02n-{chk.seed}-{i}")
     n = 120 if tier == "quick" else 2400
     for i in range(n):
         run_one(chk, f"C02-{chk.seed}-{i}", CLASSES[i % len(CLASSES)])
@@ -179,7 +236,10 @@ def replay(rep):
     chk = Check("C02", "quick", 0)
     chk.known = []
     r = rep["replay"]
-    run_one(chk, r["scenario_seed"], r["class"])
+    if r.get("never_succeeded"):
+        never_succeeded_one(chk, r["scenario_seed"])
+    else:
+        run_one(chk, r["scenario_seed"], r["class"])
     for sig, path, msg, _ in chk.violations:
         print(f"REPLAY VIOLATION {sig}: {msg}")
     return 1 if chk.violations else 0
